@@ -21,7 +21,7 @@ def run(ctx):
     common.run_rename_storms(ctx, res, "c04:")
     # members leaving while others' commands fan out (announcements and messages use the same loops): nobody who stays
     # misses a line because somebody else was just going
-    common.run_storm_kinds(ctx, res, "c04:", ["quitflood", "churn"], 4, 30)
+    common.run_storm_kinds(ctx, res, "c04:", ["quitflood", "churn", "firstjoin"], 6, 40)
     for r in results[:3]:
         if r.get("tail"):
             res.add_sample({"episode_seed": r["seed"], "last_commands": r["tail"]})
